@@ -929,7 +929,7 @@ func main() {
 		workerMain(os.Args[2:])
 		return
 	}
-	if len(os.Args) >= 2 && (os.Args[1] == "planned" || os.Args[1] == "race") {
+	if len(os.Args) >= 2 && (os.Args[1] == "planned" || os.Args[1] == "race" || strings.HasPrefix(os.Args[1], "missingcol=")) {
 		childMain(os.Args[1])
 		return
 	}
@@ -1221,6 +1221,8 @@ func main() {
 	}
 
 	runChild("planned", cfg, sum, 3)
+	runChild("missingcol=eval_missing_column", cfg, sum, 1)
+	runChild("missingcol=sort_missing_column", cfg, sum, 1)
 	runChild("race", cfg, sum, 1)
 	runE2E(cfg, sum, rng.Fork())
 	sum.Write(cfg.Out)
